@@ -538,6 +538,98 @@ def add_spawn(U):
 """, label="std wrappers spawn")
 
 
+PRELUDE_HS = r"""
+// ---------------- mux handshake: what this side announces and how the peer's announcement is decoded ----------------
+pub type CapabilityId = u64;
+pub open spec fn seq_to_map(s: Seq<(u64, u32)>, k: int) -> Map<u64, u32> decreases k {
+    if k <= 0 { Map::empty() } else { seq_to_map(s, k - 1).insert(s[k - 1].0, s[k - 1].1) }
+}
+impl PeerStreams {
+    #[verifier::external_body] pub fn new() -> (r: Self) ensures r@ == Map::<u64, u32>::empty() { unimplemented!() }
+    #[verifier::external_body] pub fn insert(&mut self, k: u64, v: u32) -> (r: Option<u32>)
+        ensures final(self)@ == old(self)@.insert(k, v), r.is_some() == old(self)@.contains_key(k) { unimplemented!() }
+}
+// R-chain template: `MAP.iter().map(F).collect()` from the BTreeMap of stream queues into a HashMap (A1: collect inserts the pairs in iteration order)
+#[verifier::external_body]
+pub fn queue_map_collect<F: Fn((&u64, QueueRef)) -> (u64, u32)>(m: &QueueMap, f: F) -> (r: PeerStreams)
+    requires forall|e: (&u64, QueueRef)| #[trigger] f.requires((e,)),
+    ensures exists|out: Seq<(u64, u32)>| out.len() == m.caps().len() && r@ == seq_to_map(out, out.len() as int)
+            && (forall|i: int| 0 <= i < out.len() ==> f.ensures(((&m.caps()[i].0, QueueRef { max_streams: m.caps()[i].1 }),), #[trigger] out[i])),
+{ unimplemented!() }
+// m is the map collected from exactly the pairs of c, in order
+pub open spec fn announces(m: Map<u64, u32>, c: Seq<(u64, u32)>) -> bool {
+    exists|out: Seq<(u64, u32)>| out.len() == c.len() && m == #[trigger] seq_to_map(out, out.len() as int) && (forall|i: int| 0 <= i < out.len() ==> #[trigger] out[i] == c[i])
+}
+pub proof fn lemma_announces(m: Map<u64, u32>, c: Seq<(u64, u32)>)
+    requires announces(m, c), ensures m == seq_to_map(c, c.len() as int)
+{
+    let out = choose|out: Seq<(u64, u32)>| out.len() == c.len() && m == #[trigger] seq_to_map(out, out.len() as int) && (forall|i: int| 0 <= i < out.len() ==> #[trigger] out[i] == c[i]);
+    assert(out =~= c);
+}
+// the capability list a well-formed announcement carries: every entry complete, ids pairwise distinct
+pub open spec fn caps_ok(c: Seq<proto::handshake::Capability>) -> bool {
+    &&& forall|i: int| 0 <= i < c.len() ==> (#[trigger] c[i]).id.is_some() && c[i].max_streams.is_some()
+    &&& forall|i: int, j: int| 0 <= i < j < c.len() ==> (#[trigger] c[i]).id != (#[trigger] c[j]).id
+}
+pub open spec fn caps_pairs(c: Seq<proto::handshake::Capability>) -> Seq<(u64, u32)> {
+    Seq::new(c.len(), |i: int| (c[i].id.unwrap(), c[i].max_streams.unwrap()))
+}
+// zksync_protobuf::required (under contract in unit conv)
+#[verifier::external_body]
+pub fn required<T>(field: &Option<T>) -> (r: Result<&T, AnyhowError>)
+    ensures field.is_some() ==> (r matches Ok(v) && *v == field->Some_0), field.is_none() ==> r.is_err() { unimplemented!() }
+"""
+
+
+def add_handshake(U):
+    from vx import protogen
+    proto_txt, prov = protogen.generate(U.repo, [("zksync.network.mux", "", ["node/components/network/src/proto/mux.proto"])], derive="")
+    U.raw(proto_txt, label="R-proto: prost message types generated from " + ", ".join(f for f, _ in prov))
+    U.raw(PRELUDE_HS, label="prelude mux handshake")
+    F_HS = "node/components/network/src/mux/handshake.rs"
+    U.item(F_HS, "struct Handshake", subs=[("HashMap<CapabilityId, u32>", "PeerStreams", None)])
+    U.fn(F_HS, "fn read_max_streams", ret="r", props=["C14", "C10"],
+         header_subs=[("anyhow::Result<HashMap<CapabilityId, u32>>", "Result<PeerStreams, AnyhowError>")],
+         subs=[("HashMap::new()", "PeerStreams::new()   /* R-type */")],
+         index_loops={0: dict(prefix="for r in capabilities", len="capabilities.len()", spec_len="capabilities@.len()", at="&capabilities[{i}]", pat="r",
+                              inv="""
+            {i} <= capabilities@.len(), caps_ok(capabilities@.take({i} as int)),
+            ms@ == seq_to_map(caps_pairs(capabilities@), {i} as int),
+            forall|k: u64| #[trigger] ms@.contains_key(k) <==> exists|j: int| 0 <= j < {i} && (#[trigger] capabilities@[j]).id == Some(k),
+""")},
+         post_subs=[("Ok(ms)", "proof { assert(capabilities@.take(capabilities@.len() as int) =~= capabilities@); } Ok(ms)")],
+         spec="""
+    ensures
+        // whatever the peer sends, decoding terminates with a value or an error (no panic); a list with an incomplete entry or a
+        // capability announced twice is refused, everything else is taken over entry by entry
+        r.is_ok() <==> caps_ok(capabilities@),
+        r matches Ok(m) ==> m@ == seq_to_map(caps_pairs(capabilities@), capabilities@.len() as int),
+""")
+    U.fn(F_HS, "impl zksync_protobuf::ProtoFmt for Handshake :: fn read", wrap="impl Handshake", ret="res", props=["C14", "C10"],
+         header_subs=[("&Self::Proto", "&proto::Handshake"), ("anyhow::Result<Self>", "Result<Self, AnyhowError>")],
+         spec="""
+    ensures
+        res.is_ok() <==> caps_ok(r.accept@) && caps_ok(r.connect@),
+        // the two directions are not mixed up
+        res matches Ok(h) ==> h.accept_max_streams@ == seq_to_map(caps_pairs(r.accept@), r.accept@.len() as int)
+                           && h.connect_max_streams@ == seq_to_map(caps_pairs(r.connect@), r.connect@.len() as int),
+""")
+    U.fn(F_M, "impl Mux :: fn handshake", wrap="impl Mux", ret="r", props=["C14"],
+         header_subs=[("-> Handshake", "-> Handshake")],
+         chains=[dict(recv="self\n                .accept", methods=["iter", "map", "collect"], template="queue_map_collect(&self.accept, {a1})",
+                      closures={1: dict(ty="(&u64, QueueRef)", ret="verif_kv: (u64, u32)", spec="ensures verif_kv == (*{p}.0, {p}.1.max_streams)", name="verif_e")}),
+                 dict(recv="self\n                .connect", methods=["iter", "map", "collect"], template="queue_map_collect(&self.connect, {a1})",
+                      closures={1: dict(ty="(&u64, QueueRef)", ret="verif_kv: (u64, u32)", spec="ensures verif_kv == (*{p}.0, {p}.1.max_streams)", name="verif_e")})],
+         post_subs=[],
+         spec="""
+    ensures
+        // what this side announces for each direction is exactly its own configured per-capability limit for that direction
+        // (the peer takes the minimum with its own limit: unit spawn_streams)
+        announces(r.accept_max_streams@, self.accept.caps()),
+        announces(r.connect_max_streams@, self.connect.caps()),
+""")
+
+
 def build(repo):
     U = Unit("mux", ["C14"], desc="stream multiplexer", uses="use std::sync::Arc;", crate_attrs="#![feature(allocator_api)]")
     U.repo = repo
@@ -546,4 +638,5 @@ def build(repo):
     add_streams(U)
     add_frame(U)
     add_spawn(U)
+    add_handshake(U)
     return U
